@@ -98,7 +98,10 @@ func (m heapManager) run() {
 			close(data.iterPop)
 		case h_fix:
 			data := req.data.(fixData)
-			if data.bar.index < 0 {
+			// bar which has been moved to the top in order to pop out keeps its
+			// place there, otherwise its rows wouldn't be the topmost ones of
+			// the frame they are subtracted from
+			if data.bar.index < 0 || data.bar.popping {
 				break
 			}
 			data.bar.priority = data.priority
